@@ -1,4 +1,4 @@
-From Coq Require Import Extraction ExtrOcamlBasic List ZArith.
-From MirV Require Import C19.Varr.
+From Coq Require Import Extraction ExtrOcamlBasic List ZArith NArith.
+From MirV Require Import C19.Varr C19.Bitmap.
 Extraction Language OCaml.
-Extraction "c19x.ml" vcreate vstep vrun.
+Extraction "c19x.ml" vcreate vstep vrun binit bstep.
